@@ -66,8 +66,11 @@ def np_summaries(record):
         b.update(kw)
         record.append(b)
         return {"x": Tok("xhat")}
-    return {"np.append": append, "np.reshape": reshape, "np.array": array, "np.column_stack": column_stack, "np.vstack": vstack,
-            "np.asarray": array, "minimize": minimize, "scipy.optimize.minimize": minimize, "zip": None}
+    import math as _m
+    num = lambda f: (lambda v: f(v) if isinstance(v, (int, float)) and not isinstance(v, bool) else (_ for _ in ()).throw(Undecided("numeric predicate on %r" % (v,))))
+    extra = {"np.isfinite": num(_m.isfinite), "np.isinf": num(_m.isinf), "np.isnan": num(_m.isnan), "math.isfinite": num(_m.isfinite)}
+    return dict(extra, **{"np.append": append, "np.reshape": reshape, "np.array": array, "np.column_stack": column_stack, "np.vstack": vstack,
+            "np.asarray": array, "minimize": minimize, "scipy.optimize.minimize": minimize, "zip": None})
 
 
 def check(repo, res, tier):
@@ -79,9 +82,11 @@ def check(repo, res, tier):
                      "the A/b linear-constraint branch (np.ndarray(A) is broken on this tree; outside the property's quantifier: box bounds only)"]
     f = repo.func(M.M_LOSS, "BaseLoss.fit")
     n = 3
-    x = [Tok("x%d" % i) for i in range(n)]
-    lb = [Tok("L%d" % i) for i in range(n)]
-    ub = [Tok("U%d" % i) for i in range(n)]
+    # distinct numbers play the role of symbols here, so that code which inspects the bounds
+    # (None / finiteness tests) can still be interpreted
+    x = [10.0 + i for i in range(n)]
+    lb = [1.0 + i for i in range(n)]
+    ub = [4.0 + i for i in range(n)]
 
     def run(args):
         rec = []
@@ -133,6 +138,23 @@ def check(repo, res, tier):
     k, o, r = run({"lb": list(lb)})
     ok = k == "return" and len(r) == 1 and isinstance(r[0].get("bounds"), list) and [list(rr) for rr in r[0].get("bounds")] == [[lb[i], None] for i in range(n)]
     res.check(ok, "R-LAYOUT", f, "lower-only", "lower bounds only: rows (lb[i], None)", "lower bounds only -> %s" % (r[0].get("bounds") if r else k,), node=f.node)
+    # concrete bounds, including the values a guard is most likely to mishandle: 0, negative, infinite
+    inf = float("inf")
+    lbn, ubn = [0.0, 1.5, -2.0], [0.0, 3.0, inf]
+    k, o, r = run({"lb": list(lbn), "ub": list(ubn)})
+    if k == "undecided":
+        res.undecided("R-LAYOUT", f, "numeric-bounds", "outside the modelled subset: %s" % o)
+    else:
+        def norm_row(row, i):
+            lo, hi = row
+            lo = -inf if lo is None else lo
+            hi = inf if hi is None else hi
+            return (lo, hi)
+        got = [norm_row(list(rr), i) for i, rr in enumerate(r[0].get("bounds"))] if (k == "return" and len(r) == 1 and isinstance(r[0].get("bounds"), list)) else None
+        want = [(lbn[i], ubn[i]) for i in range(n)]
+        res.check(got == want, "R-LAYOUT", f, "numeric-bounds",
+                  "bounds (0, 0), (1.5, 3), (-2, inf) reach the optimiser unchanged (an infinite side may be passed as None)",
+                  "for lb=%s ub=%s the optimiser receives %s: a bound is dropped or altered (a zero bound is a bound)" % (lbn, ubn, r[0].get("bounds") if r else k), node=f.node)
     # sensitivity and cost are methods of the same class with theta as first argument
     cls = repo.cls(M.M_LOSS, "BaseLoss")
     for m in ("cost", "sensitivity"):
